@@ -254,6 +254,14 @@ func c02NoBypass(c *Ctx) {
 	} else {
 		c.OKTrivial(rule, "matcher-fixture", token.NoPos, "forbidden API resolved in the dependency: (*jwt.JSONWebToken).UnsafeClaimsWithoutVerification")
 	}
+	algInventory(c, rule)
+	c02KeyWriters(c, rule)
+	c.Floor(rule, 5, "fixture + 4 parse sites + key writers")
+}
+
+// algInventory: every first-party jose/jwt Parse* call has the frozen constant allow-lists;
+// no unverified-claims API is used.
+func algInventory(c *Ctx, rule string) {
 	nParse := 0
 	for _, fn := range c.allFirstPartyFuncs() {
 		for _, ci := range callsIn(fn) {
@@ -281,6 +289,9 @@ func c02NoBypass(c *Ctx) {
 		}
 	}
 	c.Stat("jose_parse_calls", nParse)
+}
+
+func c02KeyWriters(c *Ctx, rule string) {
 	// who may write the verification keys
 	for _, gname := range []string{"SigningKey", "OIDCProvider", "Oauth2Config"} {
 		g := c.Global("cmd/rdpgw/security", gname)
@@ -303,7 +314,6 @@ func c02NoBypass(c *Ctx) {
 			})
 		}
 	}
-	c.Floor(rule, 5, "fixture + 4 parse sites + key writers")
 }
 
 // addrRootGlobal: the global an address points into (through field/index addressing).
